@@ -124,6 +124,27 @@ CLAIMED = {
              'CR/LF inside and no unexpected verb; Reply objects equal the reference assembler per connection and across '
              'segmentations; success only after data EOF and a 226.',
         note='Trusted: refs/ftp.py. read_reply is observed through a logging subclass; active mode, TLS and REST are not exercised.'),
+    'C16': dict(
+        level='exploration', engine='web', design_ref='4/C16',
+        technique='deterministic simulation: real WebClient/WebSession (redirects, cookies, basic auth) against adaptive simulated '
+                  'origins on several hosts/schemes/ports; every request is judged at the server on its raw bytes, per hop',
+        text='Seeded search over start URLs (user-info, IDN, IPv4/IPv6 literals, ports, encoded delimiters, spelling noise), redirect '
+             'chains over 301/302/303/307/308 across hosts and schemes with absolute/relative Location spellings, Set-Cookie with and '
+             'without Domain (incl. foreign domain), 401 challenges, referrers. Oracle per request: one well-formed request line with '
+             'the expected target, header lines without bare CR/LF/NUL, exactly one Host equal to the connection\'s host[:port], no '
+             'URL-embedded credentials or host-only/foreign cookies on another host.',
+        note='Trusted: expected targets by construction for a fixed menu of path/query pieces (calibrated once against the code: '
+             'space in query is "+"). Option-level credentials are not host-bound and not judged. TLS is a plaintext stub.'),
+    'C18': dict(
+        level='exploration', engine='web', design_ref='4/C18',
+        technique='deterministic simulation: adversarial simulated servers (redirect cycles, unbounded chains, mixed codes, missing or '
+                  'unparsable Location, perpetual 401/5xx, resets, stalls past the timeout on a virtual clock) against the real '
+                  'WebSession visit loop for all redirect limits; request counts from the server log',
+        text='Seeded search over adversarial strategies and --max-redirect values. Oracle from the server log: redirect follow-ups '
+             'within one visit <= limit, at most one authentication retry in a row per URL, endless redirects end with a protocol '
+             'error, the visit terminates (deadlock / budget detection on virtual time). The per-URL tries bound over the whole crawl '
+             'loop is checked by the crawl harness runs of this property (when built).',
+        note='Trusted: the visit loop replicated from WebProcessorSession._process_loop; virtual clock makes 30 s read timeouts free.'),
 }
 
 PENDING_REASON = 'check not built yet in this round (designed in DESIGN.md section 4); no claim is made'
